@@ -202,7 +202,9 @@ func TestVersionTime(t *testing.T) {
 		cuts := map[uint64]bool{}
 		for _, o := range base.Ops {
 			for _, d := range []int64{-1, 0, 1} {
-				cuts[uint64(int64(o.Desc.Time)+d)] = true
+				if ct := int64(o.Desc.Time) + d; ct >= 0 {
+					cuts[uint64(ct)] = true
+				}
 			}
 		}
 		cuts[1] = true
